@@ -26,7 +26,7 @@ from graphql import (
     is_required_input_field,
 )
 
-STRLIT_CLEAN = ["plain", "hash", "equals", "braces", "dquote_escaped", "backslash", "unicode_escape", "non_ascii", "empty", "inner_whitespace"]
+STRLIT_CLEAN = ["plain", "hash", "equals", "braces", "dquote_escaped", "backslash", "unicode_escape", "non_ascii", "empty", "inner_whitespace", "unicode_line_boundary"]
 STRLIT = {
     "plain": ['"hello world"', '"abc123"'],
     "hash": ['"a # not a comment"'],
@@ -37,6 +37,8 @@ STRLIT = {
     "unicode_escape": ['"snow \\u2603"'],
     "non_ascii": ['"żółć ☃ é"'],
     "empty": ['""'],
+    # characters that Python's str.splitlines() treats as line boundaries although GraphQL does not (raw inside the literal)
+    "unicode_line_boundary": ['"x\u2028y"', '"p\u0085q"', '"form\x0cfeed"', '"a\u2029b\x1cc"'],
     "inner_whitespace": ['"salt  and   pepper"', '"  leading and trailing  "', '"a    b"'],
     "single_quote": ['"it\'s"', '"\'quoted\'"'],
     "escape_n": ['"line1\\nline2"', '"tab\\there"'],
